@@ -29,6 +29,7 @@ RULE = ("a structure-aware byte mutator produces public-key and signature string
 ASSUMPTIONS = ["model decoder and exact subgroup membership (vf/model/bls12381.py)",
                "byte strings are of type bytes (the documented argument type)"]
 ENGINE = "hypothesis (structure-aware byte mutation) + atheris in the thorough tier"
+TECHNIQUE = ("structure-aware fuzzing: Hypothesis byte mutator and exhaustive length grids, atheris/libFuzzer coverage-guided campaigns in the thorough tier; oracles = totality, model validity predicate, pairing-argument monitor")
 MUTS = ("valid", "truncated", "extended_lead", "extended_trail", "extended_mid", "flags", "second_word_flags", "special_x", "off_curve",
         "non_subgroup", "small_order", "kG+T", "identity_enc", "random")
 _REQ = ([f"pk:{m}" for m in MUTS] + [f"sig:{m}" for m in MUTS] +
